@@ -42,6 +42,11 @@ type mHook struct {
 type mState struct {
 	Cols  map[string]map[string]*mObj
 	Hooks map[string]*mHook // "h:name" / "c:name" -> definition
+	// Timed: deadlines are part of the state (C14); Now is the model clock (s).
+	Timed bool
+	Now   float64
+	// Expired lists what the last @advance removed ("key id" / "c:name").
+	Expired []string
 }
 
 func newMState() *mState {
@@ -61,6 +66,7 @@ func (s *mState) clone() *mState {
 		hh := *h
 		c.Hooks[k] = &hh
 	}
+	c.Timed, c.Now = s.Timed, s.Now
 	return c
 }
 
@@ -95,6 +101,26 @@ func (s *mState) canon() string {
 			d = "T"
 		}
 		sb.WriteString("@" + k + "=" + h.Spec + "|" + d + ";")
+	}
+	return sb.String()
+}
+
+// canonTimed adds remaining lifetimes and the sweeper phase (C14 dedup key).
+func (s *mState) canonTimed() string {
+	var sb strings.Builder
+	sb.WriteString(s.canon())
+	fmt.Fprintf(&sb, "#phase=%d", int(s.Now*1000+0.5)%200)
+	for _, k := range sortedKeys(s.Cols) {
+		for _, id := range sortedKeys(s.Cols[k]) {
+			if o := s.Cols[k][id]; o.Dead {
+				fmt.Fprintf(&sb, ",%s/%s:%d", k, id, int(o.TTL*1000+0.5))
+			}
+		}
+	}
+	for _, k := range sortedKeys(s.Hooks) {
+		if h := s.Hooks[k]; h.Dead {
+			fmt.Fprintf(&sb, ",%s:%d", k, int(h.TTL*1000+0.5))
+		}
 	}
 	return sb.String()
 }
@@ -579,24 +605,48 @@ func mApply(s *mState, a []string) string {
 		return ":" + strconv.Itoa(n)
 	case "@advance":
 		dt, _ := strconv.ParseFloat(a[1], 64)
+		s.Expired = nil
+		step := func(d float64) (limbo bool) {
+			s.Now += d
+			for _, k := range sortedKeys(s.Cols) {
+				for _, id := range sortedKeys(s.Cols[k]) {
+					o := s.Cols[k][id]
+					if o.Dead {
+						o.TTL -= d
+						if s.Timed && o.TTL <= 0 && o.TTL > -0.4 {
+							limbo = true
+						}
+					}
+				}
+			}
+			for _, k := range sortedKeys(s.Hooks) {
+				h := s.Hooks[k]
+				if h.Dead {
+					h.TTL -= d
+					if s.Timed && h.TTL <= 0 && h.TTL > -0.4 {
+						limbo = true
+					}
+				}
+			}
+			return
+		}
+		limbo := step(dt)
+		for n := 0; limbo && n < 100; n++ {
+			// settle: never observe an object inside the sweeper's 0.4 s window
+			limbo = step(0.05)
+		}
 		for _, k := range sortedKeys(s.Cols) {
 			for _, id := range sortedKeys(s.Cols[k]) {
-				o := s.Cols[k][id]
-				if o.Dead {
-					o.TTL -= dt
-					if o.TTL <= 0 {
-						s.del(k, id)
-					}
+				if o := s.Cols[k][id]; o.Dead && o.TTL <= 0 {
+					s.Expired = append(s.Expired, k+" "+id)
+					s.del(k, id)
 				}
 			}
 		}
 		for _, k := range sortedKeys(s.Hooks) {
-			h := s.Hooks[k]
-			if h.Dead {
-				h.TTL -= dt
-				if h.TTL <= 0 {
-					delete(s.Hooks, k)
-				}
+			if h := s.Hooks[k]; h.Dead && h.TTL <= 0 {
+				s.Expired = append(s.Expired, k)
+				delete(s.Hooks, k)
 			}
 		}
 		return "~any"
@@ -671,6 +721,9 @@ func mApply(s *mState, a []string) string {
 		}
 		if !o.Dead {
 			return ":-1"
+		}
+		if s.Timed {
+			return ":" + strconv.Itoa(int(o.TTL))
 		}
 		return "~ttl"
 	case "type":
